@@ -351,8 +351,46 @@ func TestIsolation(t *testing.T) {
 				maxOpen = n
 			}
 		}
-		doOpen(rt)
-		doOpen(rt)
+		// openMany opens k logical connections at the same instant (goroutines released together): at a cold start
+		// this is the schedule in which several openers find no physical session yet
+		openMany := func(rt *rapid.T, k int, what string) {
+			chs := make([]int, k)
+			for i := range chs {
+				chs[i] = rapid.IntRange(0, 1).Draw(rt, "channel")
+			}
+			base := len(w.conns)
+			lcs := make([]*lconn, k)
+			msgs := make([]string, k)
+			start := make(chan struct{})
+			var wg sync.WaitGroup
+			for i := 0; i < k; i++ {
+				wg.Add(1)
+				go func(i int) {
+					defer wg.Done()
+					<-start
+					lcs[i], msgs[i] = w.open(base+i, chs[i])
+				}(i)
+			}
+			close(start)
+			wg.Wait()
+			w.logf("%s: %d concurrent opens on channels %v", what, k, chs)
+			for i := 0; i < k; i++ {
+				if msgs[i] != "" {
+					fail(fmt.Sprintf("%s (%d opened together): %s", what, k, msgs[i]))
+				}
+				w.conns = append(w.conns, lcs[i])
+			}
+			if n := len(openConns()); n > maxOpen {
+				maxOpen = n
+			}
+			bursts++
+		}
+		if rapid.Bool().Draw(rt, "coldConcurrent") {
+			openMany(rt, rapid.IntRange(2, 6).Draw(rt, "coldK"), "cold start")
+		} else {
+			doOpen(rt)
+			doOpen(rt)
+		}
 
 		pickOpen := func(rt *rapid.T) *lconn {
 			o := openConns()
@@ -387,6 +425,13 @@ func TestIsolation(t *testing.T) {
 				if msg := w.write(lc, fromApp, n); msg != "" {
 					fail(msg)
 				}
+			},
+			"openMany": func(rt *rapid.T) {
+				room := 8 - len(openConns())
+				if room < 2 {
+					rt.Skip("enough connections")
+				}
+				openMany(rt, rapid.IntRange(2, minInt(4, room)).Draw(rt, "k"), "concurrent opens")
 			},
 			"burst": func(rt *rapid.T) {
 				o := openConns()
